@@ -31,5 +31,6 @@ def run(ctx):
     H.r14_11_built_nodes(ctx, 'R15.8')
     from . import round3 as R3
     R3.r14_14_exact_key_match(ctx, 'R15.9')
+    H.r15_10_duplicates_leave_the_node_alone(ctx)
     from . import memo_rules as M
     M.memo_sound(ctx, 'R15.M')
